@@ -1,6 +1,8 @@
-from lv.checks import labrun
+from lv.checks import labrun, save
 
 REGISTRY = {}
-REPLAYERS = {}
+REPLAYERS = {'save-fault': save.replay}
 for _p in labrun.SPECS:
     REGISTRY[_p] = labrun.run
+REGISTRY['C12'] = save.run
+REGISTRY['C13'] = save.run
